@@ -1,14 +1,14 @@
 #!/bin/bash
-# Runs, for every seeded change, the quick check of its property against the patched /repo; prints a table.
-# (Serial: each run patches /repo.)  usage: seedmatrix.sh [extra-id-map]
+# Runs, for every seeded change, the quick check of its property against a scratch worktree of /repo
+# with the change applied (tools/tryseed_wt.sh: /repo itself is never patched); prints a table.
+# usage: [SEEDGLOB='seeded/*/4'] [TIER=quick] seedmatrix.sh
 cd /verif
-for d in ${SEEDGLOB:-seeded/*/[12]}; do
+for d in ${SEEDGLOB:-seeded/*/[1234]}; do
   id=$(basename $(dirname $d)); n=$(basename $d)
-  cd /repo; if git apply $OLDPWD/$d/patch.diff 2>/dev/null || git apply -3 $OLDPWD/$d/patch.diff >/dev/null 2>&1; then ok=1; else ok=0; git reset -q --hard HEAD; fi; cd /verif
-  if [ $ok = 0 ]; then echo "$id/$n PATCH-CONFLICT"; continue; fi
-  out=$(./check $id 2>&1); ec=$?
+  out=$(tools/tryseed_wt.sh $d/patch.diff $id --tier ${TIER:-quick} 2>&1)
+  if echo "$out" | grep -q "patch does not apply"; then echo "$id/$n PATCH-CONFLICT"; continue; fi
+  ec=$(echo "$out" | grep "^exit=" | tail -1 | cut -d= -f2)
   v=$(echo "$out" | grep -c "^VIOLATION")
   k=$(echo "$out" | grep "^  key=" | head -1 | cut -c1-140)
-  git -C /repo reset -q --hard HEAD
   echo "$id/$n exit=$ec violations=$v :: $k"
 done
